@@ -166,6 +166,10 @@ impl TaskLogWriter {
                     Err(_) => return Err(()),
                 }
             }
+            // tokio's File completes a write in the background; the range must be readable once it is referenced
+            if self.file.flush().await.is_err() {
+                return Err(());
+            }
             self.bytes_stored = self.bytes_stored.saturating_add(take as u64);
         }
         if (take as u64) < chunk.len() as u64 {
